@@ -47,7 +47,8 @@ Inductive event :=
 | EBatch (now : N) (l : list telem)        (* transport messages received in one batch *)
 | ETun (now : N) (p hid : N)               (* packet from the TUN routed to p; hid = number of an initiation if created *)
 | EUapi (now : N) (p : N) (a : addr) (hid : N)  (* set public_key=p endpoint=a *)
-| EShiftHs (p d : N).                      (* hook VerifShiftHandshakeTimes *)
+| EShiftHs (p d : N)                       (* hook VerifShiftHandshakeTimes *)
+| ERestart (now : N).                      (* Device.Down then Device.Up: every peer is stopped and started *)
 
 Inductive output :=
 | OResp (to : addr) (p : N)
@@ -266,6 +267,15 @@ Definition shift_hs (x : peer) (d : N) : peer :=
      p_last_consume := p_last_consume x - d; p_last_sent := p_last_sent x - d; p_pending := p_pending x;
      p_prev := p_prev x; p_cur := p_cur x; p_next := p_next x; p_staged := p_staged x |}.
 
+(* Peer.Stop (ZeroAndFlushAll: keypairs deleted, Handshake.Clear, staged packets dropped) followed by
+   Peer.Start (lastSentHandshake := now - RekeyTimeout - 1 s).  What a restart KEEPS is what the
+   freshness checks live on: the greatest consumed timestamp, the time of the last consumption,
+   and the endpoint. *)
+Definition restart_peer (now : N) (x : peer) : peer :=
+  {| p_id := p_id x; p_endpoint := p_endpoint x; p_last_ts := p_last_ts x;
+     p_last_consume := p_last_consume x; p_last_sent := now - (RekeyTimeout + 1000000000);
+     p_pending := None; p_prev := None; p_cur := None; p_next := None; p_staged := 0 |}.
+
 Definition step (st : dstate) (e : event) : dstate * list output :=
   match e with
   | EInit now m sid => recv_init st now m sid
@@ -288,6 +298,7 @@ Definition step (st : dstate) (e : event) : dstate * list output :=
       | Some x => (put_peer st (shift_hs x d), [])
       | None => (st, [])
       end
+  | ERestart now => (map (restart_peer now) st, [])
   end.
 
 (* Peer.Start: lastSentHandshake = start - (RekeyTimeout + 1 s) *)
